@@ -470,34 +470,38 @@ func c04Corpus2() []any {
 	return out
 }
 
-// c04Exhaustive2: every string of length <= n over the metacharacter alphabet through the
-// literal parser (quick) and through all five parsers (thorough), second model.
+// c04Exhaustive2: second model.  Quick: every string of length <= 3 over 'a . = , [ ] 0 \' through
+// the literal parser.  Thorough: length <= 4 through the literal parser, and every string of
+// length <= 3 over the same alphabet plus '{' '}' through the other four parsers.
 func c04Exhaustive2(tier string) []any {
 	alpha := []string{"a", ".", "=", ",", "[", "]", "0", "\\"}
-	maxLen, fns := 3, []string{"ParseLiteralInto"}
-	if tier == "thorough" {
-		alpha = append(alpha, "{", "}")
-		maxLen, fns = 4, []string{"ParseLiteralInto", "ParseInto", "ParseIntoString", "ParseJSON", "ParseIntoFile"}
-	}
 	dest := vtree{"a": vtree{"a": int64(1)}, "0": []interface{}{"x", []interface{}{nil}}}
 	var out []any
-	var rec func(prefix string, n int)
-	rec = func(prefix string, n int) {
-		for _, fn := range fns {
-			p := &c04Parse{Fn: fn, S: prefix, Dest: dest, V2: true}
-			if fn == "ParseIntoFile" {
-				p.Reader = map[string]c04RVal{"a": {Val: "A"}, "0": {Val: int64(0)}, "": {Val: nil}}
+	enum := func(alpha []string, maxLen int, fns []string) {
+		var rec func(prefix string, n int)
+		rec = func(prefix string, n int) {
+			for _, fn := range fns {
+				p := &c04Parse{Fn: fn, S: prefix, Dest: dest, V2: true}
+				if fn == "ParseIntoFile" {
+					p.Reader = map[string]c04RVal{"a": {Val: "A"}, "0": {Val: int64(0)}, "": {Val: nil}}
+				}
+				out = append(out, c04Case{Kind: "parse", Tag: "exhaustive-parse2", Parse: p})
 			}
-			out = append(out, c04Case{Kind: "parse", Tag: "exhaustive-parse2", Parse: p})
+			if n == 0 {
+				return
+			}
+			for _, c := range alpha {
+				rec(prefix+c, n-1)
+			}
 		}
-		if n == 0 {
-			return
-		}
-		for _, c := range alpha {
-			rec(prefix+c, n-1)
-		}
+		rec("", maxLen)
 	}
-	rec("", maxLen)
+	if tier == "thorough" {
+		enum(alpha, 4, []string{"ParseLiteralInto"})
+		enum(append(append([]string{}, alpha...), "{", "}"), 3, []string{"ParseInto", "ParseIntoString", "ParseJSON", "ParseIntoFile"})
+	} else {
+		enum(alpha, 3, []string{"ParseLiteralInto"})
+	}
 	return out
 }
 
